@@ -12,6 +12,9 @@ use core::{
     ptr,
 };
 
+#[cfg(feature = "verif-hooks")]
+use crate::verif;
+
 /// An error which can be returned when parsing a decimal literal.
 ///
 /// This error is used as the error type for the `FromStr` implementation of
@@ -157,6 +160,8 @@ impl<'a> AsciiDecLit<'a> {
         // First, try chunks of 8 digits
         while let Some(k) = self.read_u64() {
             if chunk_contains_8_digits(k) {
+                #[cfg(feature = "verif-hooks")]
+                verif::hit(verif::PARSE_CHUNK_ACCEPT);
                 *coeff = coeff
                     .wrapping_mul(100000000)
                     .wrapping_add(chunk_to_u64(k) as u128);
@@ -165,6 +170,8 @@ impl<'a> AsciiDecLit<'a> {
                     self.skip_n(8);
                 }
             } else {
+                #[cfg(feature = "verif-hooks")]
+                verif::hit(verif::PARSE_CHUNK_REJECT);
                 break;
             }
         }
@@ -172,6 +179,8 @@ impl<'a> AsciiDecLit<'a> {
         while let Some(c) = self.first() {
             let d = c.wrapping_sub(b'0');
             if d < 10 {
+                #[cfg(feature = "verif-hooks")]
+                verif::hit(verif::PARSE_TAIL_DIGIT);
                 *coeff = coeff.wrapping_mul(10).wrapping_add(d as u128);
                 // Safety: safe because of call to self.first above
                 unsafe {
@@ -196,6 +205,10 @@ impl<'a> AsciiDecLit<'a> {
             if d < 10 {
                 if *exp < 0x1000000 {
                     *exp = exp.wrapping_mul(10).wrapping_add(d as isize);
+                }
+                #[cfg(feature = "verif-hooks")]
+                if *exp >= 0x1000000 {
+                    verif::hit(verif::PARSE_EXP_SATURATED);
                 }
                 // Safety: safe because of call to self.first above
                 unsafe {
@@ -273,6 +286,17 @@ pub fn str_to_dec(lit: &str) -> Result<(i128, isize), ParseDecimalError> {
     //    or first digit > 1 (value >= 2 * 10³⁸ > i128::MAX, the wrapped coeff
     //    may look valid)
     // 3. coeff > i128::MAX
+    #[cfg(feature = "verif-hooks")]
+    if n_digits > 39 {
+        verif::hit(verif::PARSE_OVF_NDIGITS);
+    } else if n_digits == 39
+        && (coeff < 100000000000000000000000000000000000000_u128
+            || first_digit != Some(b'1'))
+    {
+        verif::hit(verif::PARSE_OVF_39);
+    } else if coeff > i128::MAX as u128 {
+        verif::hit(verif::PARSE_OVF_MAX);
+    }
     if n_digits > 39
         || n_digits == 39
             && (coeff < 100000000000000000000000000000000000000_u128
